@@ -62,3 +62,16 @@ Example C13_example :
   pos (interval_of_lmatcher true m) = NE (Some 3) (Some 9) /\
   filter_impl nat (fun _ _ => false) (fun _ _ l => Nat.even l) true m [1;2;3;4;5;6;7;8;9;10;11]%nat = [4;6;8]%nat.
 Proof. vm_compute. split; reflexivity. Qed.
+
+(** Second half of the property: [filter -line-nums RANGE...] — statements in Props/C13b.v
+    (model Model/LineNums.v); their assumptions are printed here so that the check of C13 covers both halves. *)
+From Exactly Require Import Props.C13b.
+Print Assumptions C13_in_ranges_iff.
+Print Assumptions C13_merge_preserves_set.
+Print Assumptions C13_merge_invariant.
+Print Assumptions C13_partition_correct.
+Print Assumptions C13_translate_neg_preserves_set.
+Print Assumptions C13_segments_walk_correct.
+Print Assumptions C13_single_range_correct.
+Print Assumptions C13_multiple_ranges_correct.
+Print Assumptions C13_line_nums_exact.
